@@ -24,7 +24,7 @@ LEVEL = "exploration"
 RULE = (
     "twin pairs: one physical scenario (uniform static / time-dependent fields, biased terminals, screening on/off) stated in two "
     "unit systems on the same dimensionless mesh object; dimensionless trajectories and physical outputs (sheet current density in "
-    "A/m) compared to 1e-8 x 4^n capped at 1e-3 (mu up to its additive constant, psi up to one global phase); plus absolute SI oracles per run (2 pi flux/Phi_0 per mesh triangle, terminal flux "
+    "A/m, field of the currents in T at fixed physical points, each read twice on the same Solution) compared to 1e-8 x 4^n capped at 1e-3 (mu up to its additive constant, psi up to one global phase); plus absolute SI oracles per run (2 pi flux/Phi_0 per mesh triangle, terminal flux "
     "density 4 I/(K0 L), screening kernel prefactor); non-trivial = the two unit systems differ and >= 3 updates were compared on a "
     "driven run; distinct = scenario digests"
 )
@@ -103,7 +103,7 @@ def gen(seed, idx, tier):
             scn["meta"]["slow_rel"] = rel
     scn["twin_units"] = [lu, fu, cu]
     scn["shared_options"] = rnd.random() < 0.3
-    return scn
+    return scen.maybe_restored(rnd, scn, 0.15)
 
 
 class SIInputs:
@@ -312,6 +312,39 @@ def run(scn):
             Jlast = np.abs(np.asarray(h1.solution.tdgl_data.supercurrent)) + np.abs(np.asarray(h1.solution.tdgl_data.normal_current))
             if d > 1e-6 * ref + 1e-300 and float(np.max(Jlast, initial=0.0)) > 1e-9:
                 V.append(Violation("physical-output", f"Solution.current_density in A/m differs by {d / ref:.3g} relative between the unit systems", **where))
+            # a short post-processing history on each Solution: the field of the currents at fixed
+            # physical points (twice), then the current density again - reading an output must not
+            # change the next one, and every output is the same physical quantity in both systems
+            if float(np.max(Jlast, initial=0.0)) > 1e-9 and not V:
+                outs = []
+                for sim_, h_ in ((sim1, h1), (sim2, h2)):
+                    c_ = get_ctx(sim_)
+                    xi_m = c_.xi * si.PREFIX[c_.lu]
+                    pts = np.array([[0.3, 0.2], [-0.5, 0.1], [0.05, -0.4]]) * xi_m / si.PREFIX[c_.lu]
+                    z = 1.0 * xi_m / si.PREFIX[c_.lu]
+                    try:
+                        Ka = np.array(h_.solution.current_density.to("A/m").magnitude, copy=True)
+                        B1 = np.array(h_.solution.field_at_position(pts, zs=z, units="T", with_units=False), dtype=float, copy=True)
+                        B2 = np.array(h_.solution.field_at_position(pts, zs=z, units="T", with_units=False), dtype=float, copy=True)
+                        Kb = np.array(h_.solution.current_density.to("A/m").magnitude, copy=True)
+                    except Exception as e:
+                        tb_ = __import__("traceback").extract_tb(e.__traceback__)
+                        if not any("/tdgl/" in f_.filename for f_ in tb_):
+                            raise
+                        V.append(Violation("post-processing-raised", f"Solution post-processing raised {type(e).__name__}: {str(e)[:100]}", **where))
+                        outs = None
+                        break
+                    outs.append((Ka, B1, B2, Kb))
+                    refB = float(np.max(np.abs(B1), initial=0.0)) + 1e-300
+                    refK = float(np.max(np.abs(Ka), initial=0.0)) + 1e-300
+                    if float(np.max(np.abs(B1 - B2))) > 1e-9 * refB or float(np.max(np.abs(Ka - Kb))) > 1e-9 * refK:
+                        V.append(Violation("output-history", f"repeating Solution.field_at_position / current_density on the same Solution ({c_.lu}, {c_.fu}, {c_.cu}) gives different values: field {float(np.max(np.abs(B1 - B2))) / refB:.3g}, current density {float(np.max(np.abs(Ka - Kb))) / refK:.3g} relative", **where))
+                        break
+                if outs and len(outs) == 2 and not V:
+                    refB = float(np.max(np.abs(outs[0][1]), initial=0.0)) + 1e-300
+                    dB = float(np.max(np.abs(outs[0][1] - outs[1][1])))
+                    if dB > 1e-6 * refB:
+                        V.append(Violation("physical-output", f"Solution.field_at_position in T at the same physical points differs by {dB / refB:.3g} relative between the unit systems", **where))
             # independent SI value of the sheet current density: (K0/4) x site-averaged edge value ... x 4
             c = get_ctx(sim1)
             J = np.asarray(t1[-1]["out"]["supercurrent"]) + np.asarray(t1[-1]["out"]["normal_current"]) if t1 else None
